@@ -37,6 +37,13 @@ func genC20TC(g *Gen) error {
 		{"lib/binaryfilterfunc/functions.go", "CombineConditionWithAnd", "tcCombineConditionWithAnd"},
 		{"engine/hybrid_index_reader.go", "initKeyCondition", "tcInitKeyCondition"},
 		{"lib/record/sort.go", "SortData.Init", "tcSortDataInit"},
+		{"engine/column_store_reader.go", "getSegmentRanges", "fragGetSegmentRanges"},
+		{"engine/immutable/location.go", "Location.SetFragmentRanges", "locSetFragmentRanges"},
+		{"engine/immutable/location.go", "Location.hasNext", "locHasNext"},
+		{"engine/immutable/location.go", "Location.nextSegment", "locNextSegment"},
+		{"lib/fragment/fragment.go", "NewIndexFragmentVariable", "fragNewIndexFragmentVariable"},
+		{"lib/fragment/fragment.go", "IndexFragmentVariableImpl.GetSegmentsFromFragmentRange", "fragVarGetSegments"},
+		{"lib/fragment/fragment.go", "IndexFragmentFixedSizeImpl.GetSegmentsFromFragmentRange", "fragFixGetSegments"},
 		{"engine/index/sparseindex/field.go", "FieldRef.Less", "fieldRefLess"},
 		{"engine/index/sparseindex/field.go", "FieldRef.Equals", "fieldRefEquals"},
 		{"engine/index/sparseindex/field.go", "FieldRef.IsNull", "fieldRefIsNull"},
